@@ -6,6 +6,7 @@ Import ListNotations.
 From Snaps Require Import Base.Bytes Base.Assoc.
 From Snaps Require Import Model.Frame Model.PathModel Model.Mode Model.Api Model.Natural Model.Clean Model.RunFilter.
 From Snaps Require Import Proofs.FrameP Proofs.CleanP Proofs.CleanEntriesP Proofs.TestIdP Proofs.RunFilterP.
+From Snaps Require Import Proofs.CleanFilesP Proofs.CleanRunP.
 
 (* an entry whose id is registered (addressed in this process) survives EVERY rewrite - prune, sort,
    both - with exactly the body it had, exactly once ... *)
@@ -49,3 +50,41 @@ Theorem C07_report_mode_untouched : forall s sort_opt count,
   s_fs (fst (clean_run s sort_opt count)) = s_fs s /\ cr_writes (snd (clean_run s sort_opt count)) = [].
 Proof. exact clean_readonly. Qed.
 Print Assumptions C07_report_mode_untouched.
+
+(* ---------- for a WHOLE Clean run on a state (every mode, every sort setting) ---------- *)
+
+(* an entry of an addressed well-formed file whose id was registered in this process is still in that file after the run,
+   exactly once, with exactly its body; its own file does not report it, and no file does unless ANOTHER addressed file holds a
+   stale entry with the same id (the report is a flat list of ids without file names: computed example
+   [RunExample.same_id_reported_by_other_file]) *)
+Theorem C07_run_addressed_entry_survives : forall s sort_opt count p es,
+  NoDup (map fst (s_fs s)) ->
+  In p (fr_used (run_files s count)) ->
+  alookup p (s_fs s) = Some (render (map to_entry es)) ->
+  Forall centry_ok es -> NoDup (map fst es) ->
+  forall e, In e es -> In (fst e) (registered_tests (s_cleanup s) p count) ->
+  alookup p (s_fs (fst (clean_run s sort_opt count))) = Some (render (map to_entry (run_entries s sort_opt count p es))) /\
+  In e (run_entries s sort_opt count p es) /\
+  NoDup (map fst (run_entries s sort_opt count p es)) /\
+  ~ In (fst e) (file_report s sort_opt count p) /\
+  ((forall q, In q (fr_used (run_files s count)) -> q <> p -> ~ In (fst e) (file_report s sort_opt count q)) ->
+   ~ In (fst e) (cr_obsolete_tests (snd (clean_run s sort_opt count)))).
+Proof. exact run_addressed_entry_survives. Qed.
+Print Assumptions C07_run_addressed_entry_survives.
+
+(* ... with `count` uniform executions making k calls each, every ordinal 1..k is protected *)
+Theorem C07_run_count_uniform : forall s sort_opt count p es,
+  NoDup (map fst (s_fs s)) ->
+  In p (fr_used (run_files s count)) ->
+  alookup p (s_fs s) = Some (render (map to_entry es)) ->
+  Forall centry_ok es -> NoDup (map fst es) ->
+  forall t k i e, 0 < count -> 1 <= i <= k -> alookup2 (p, t) (s_cleanup s) = Some (count * k) ->
+  In e es -> fst e = snapshot_occ_fmt t i ->
+  alookup p (s_fs (fst (clean_run s sort_opt count))) = Some (render (map to_entry (run_entries s sort_opt count p es))) /\
+  In e (run_entries s sort_opt count p es) /\
+  NoDup (map fst (run_entries s sort_opt count p es)) /\
+  ~ In (fst e) (file_report s sort_opt count p) /\
+  ((forall q, In q (fr_used (run_files s count)) -> q <> p -> ~ In (fst e) (file_report s sort_opt count q)) ->
+   ~ In (fst e) (cr_obsolete_tests (snd (clean_run s sort_opt count)))).
+Proof. exact run_count_uniform. Qed.
+Print Assumptions C07_run_count_uniform.
